@@ -15,7 +15,7 @@ fn rules() -> Vec<String> {
         "d.net#@#+js(set-constant, a, 1)", "a.com,e.io##.x:style(color: red)", "a.com#@#.x:style(color: red)", "e.io,f.dev#@#.y:has-text(ad)", "~g.net##.y:has-text(ad)",
         "h.com,i.com##.z:remove()", "example.*##.entity-ad",
     ].into_iter().map(String::from).collect();
-    for i in 0..8 { r.push(format!("banner{}$domain=foo.com", i)); r.push(format!("/path{}/ads/*", i)); }
+    for i in 0..8 { r.push(format!("banner{}$domain=foo.com", i)); r.push(format!("/path{}/ads/*", i)); r.push(format!("||tagged{}.example^$tag=t{}", i, i % 3)); }
     r
 }
 
